@@ -43,6 +43,7 @@ type Scenario struct {
 	Script    FlowScript  `json:"script"`
 	Noise     []NoiseItem `json:"noise,omitempty"`
 	Muts      []MutSpec   `json:"muts,omitempty"`
+	Flood     *FloodSpec  `json:"flood,omitempty"`
 	Sack      SackCfg     `json:"sack"`
 	Faults    []Fault     `json:"faults,omitempty"`
 	FiltersOff bool       `json:"filters_off,omitempty"`
@@ -152,6 +153,7 @@ func RunScenario(t *testing.T, sc *Scenario) *Outcome {
 	world := NewNetWorld(sc.Script)
 	world.Noise = sc.Noise
 	world.Muts = sc.Muts
+	world.Flood = sc.Flood
 	world.Strict = sc.Strict || sc.ProbeKind() == "icmp-echo"
 	out.World = world
 	target := netip.AddrPortFrom(netip.MustParseAddr(sc.Target), uint16(sc.Port))
